@@ -284,6 +284,14 @@ def run_case(case, monitor, storage_factory=None, hooks=None, extra_rounds=6, ke
             check_oracles()
 
     def drain(bound):
+        if H.get("fresh_engine"):
+            # a (re)started engine has not taken a single step yet: its `busy` reads the provider's change feed from
+            # the new session's position, not from the stored cursor, until the first intake step — "reports nothing
+            # left to do" only means something once every service loop has run once
+            H["fresh_engine"] = False
+            step("intake", 0)
+            step("intake", 1)
+            step("sync")
         for i in range(bound):
             if not H["eng"].busy():
                 emit([3], ("quiet",))
@@ -317,8 +325,20 @@ def run_case(case, monitor, storage_factory=None, hooks=None, extra_rounds=6, ke
         if cursor_watch:
             for sd in (0, 1):
                 cursor_watch.restart(sd, mode in ("cursor_removed", "cursor_rejected"))
+        new_session()
         new_engine()
+        H["fresh_engine"] = True
         res.extra["restarts"] = res.extra.get("restarts", 0) + 1
+
+    def new_session():
+        """a restarted process talks to the providers through a NEW session: the provider-side read position of the
+        change feed starts at 'latest' (what the project's own restart tests emulate with current_cursor = None);
+        only a cursor the engine stored itself can take it back to where the old process stopped"""
+        for prov in world.provs:
+            try:
+                prov.current_cursor = None
+            except Exception:
+                pass
 
     def crash_recover():
         nonlocal storage
@@ -329,7 +349,14 @@ def run_case(case, monitor, storage_factory=None, hooks=None, extra_rounds=6, ke
         if cursor_watch:
             for sd in (0, 1):
                 cursor_watch.restart(sd, False)
+        if hooks.get("on_crash"):
+            # C07: the surviving storage (re-opened from the file) and providers, before any new engine exists
+            hooks["on_crash"](world, storage, res)
+        new_session()
         new_engine()
+        H["fresh_engine"] = True
+        if hooks.get("after_restart"):
+            hooks["after_restart"](H["eng"], world)
 
     try:
         eng = new_engine()
@@ -396,7 +423,24 @@ def run_case(case, monitor, storage_factory=None, hooks=None, extra_rounds=6, ke
                     pass
                 emit([2], ("crash",))
                 crash_recover()
-                break
+                # C07 witnesses (additive): user operations made between the process death and the restart
+                for side_, op_ in case.get("after_crash_user", []):
+                    world.user(side_, op_)
+                    n_user += 1
+                    emit([0, side_, it.op(op_)], ("user", side_, op_[0], op_[1:]))
+                # C07 (additive): engine steps of the new process before the fair rounds start (the order in which the
+                # restarted managers first get to run is not fixed)
+                for a_ in case.get("after_crash_steps", []):
+                    try:
+                        step(a_[0], a_[1] if len(a_) > 1 else None)
+                    except E.Token:
+                        pass
+                if not case.get("resume_after_crash"):
+                    break
+                # C07 (additive): recover to quiescence first, then the rest of the schedule continues on the new engine
+                if not drain(400):
+                    res.stuck = True
+                    break
         if not res.stuck:
             try:
                 if not drain(400):
